@@ -153,6 +153,12 @@ CORPUS = [
     {"grammar": "Model: a=A b=B?; A: x=ID?; B: 'b';\n", "opts": {}, "inputs": ["b", "q b", ""], "tag": "corpus-nullable-rule"},
     {"grammar": "Model: vs+=V; V: x=/<(\\w+)>/ | y=BOOL | z=/#(x)?/;\n", "opts": {"use_regexp_group": True},
      "inputs": ["<ab> true # #x 0", "<q>"], "tag": "corpus-regexp-group"},
+    {"grammar": "M: ('a'- | 'b') 'c';\n", "opts": {}, "inputs": ["ac", "abc", "bc"], "tag": "corpus-choice-suppressed-alt"},
+    {"grammar": "M: x=INT ('a'? | 'b') y=INT;\n", "opts": {}, "inputs": ["1 2", "1 a 2", "1 b 2"], "tag": "corpus-choice-empty-opt"},
+    {"grammar": "Model: x=/a*/ 'b';\n", "opts": {"auto_init_attributes": False}, "inputs": ["b", "aab"], "tag": "corpus-empty-regex"},
+    {"grammar": "Model: ('a'-)* 'b';\n", "opts": {}, "inputs": ["a a b", "b", "a b"], "tag": "corpus-rep-suppressed"},
+    {"grammar": "Model[noskipws]: 'a'*;\n", "opts": {}, "inputs": ["a a", "aa"], "tag": "corpus-modifier-on-repetition"},
+    {"grammar": "Model: a=A; A[noskipws]: (x+=ID)*;\n", "opts": {}, "inputs": ["a b", "ab", " ab"], "tag": "corpus-modifier-on-repetition2"},
     {"grammar": "Model: objs+=O; O: 'o' name=ID ('{' kids+=O '}')?;\nComment: /\\/\\/.*?$/;\n", "opts": {},
      "inputs": ["o a { o b // c\n o c {o d} }\n\n  o e", "// x\no a{}", "o a {\r\n o b }"], "tag": "corpus-nested-comment"},
 ]
